@@ -378,7 +378,7 @@ def replay_daily(inp):
 
 # ------------------------------------------------------------------ (c) the complete hourly predict, concrete weather
 
-def hourly_predict_scenario(zone, date, before, usage):
+def hourly_predict_scenario(zone, date, before, usage, form="plain"):
     """real HourlyReportingData + HourlyModel.predict (hand-written stored model for `zone`, see hourlyref) on the
     whole local days around a transition: one finite prediction per real hour, on the real clock"""
     import logging
@@ -392,18 +392,31 @@ def hourly_predict_scenario(zone, date, before, usage):
         df["observed"] = np.abs(rng.normal(1.5, 0.5, len(idx))) + 0.1
         if usage != "present":
             df.loc[np.array([t.date() == dt.date.fromisoformat(date) for t in idx]), "observed"] = np.nan
+    if form == "microseconds":
+        df.index = df.index.as_unit("us")  # frames read from parquet / databases often carry a microsecond index
+    elif form == "late rows":
+        k = len(df) // 2
+        df = pd.concat([df.iloc[:k], df.iloc[k + 3:], df.iloc[k:k + 3]])  # three readings delivered late, appended at the end
     pr = []
     try:
         data = HourlyReportingData(df, is_electricity_data=True)
         out = H.model(tz=zone).predict(data)
     except Exception as ex:
         return [f"{type(ex).__name__}: {str(ex)[:140]}"]
-    if list(out.index) != list(idx):
+    if list(out.index) != list(idx) or list(data.df.index) != list(idx):
         extra = [str(t) for t in out.index if t not in set(idx)][:2]
         lost = [str(t) for t in idx if t not in set(out.index)][:2]
         pr.append(f"{len(out)} rows for {len(idx)} real hours (not in the input: {extra}; missing: {lost}; chronological: {out.index.is_monotonic_increasing})")
     elif str(out.index.tz) != str(idx.tz):
         pr.append(f"timezone {out.index.tz} instead of {idx.tz}")
+    if not pr:
+        # each real hour keeps its own weather (a relabelled or merged hour would come back with another hour's, or a filled-in, reading)
+        sup = df["temperature"].sort_index()
+        got_t = data.df["temperature"].reindex(sup.index).to_numpy(dtype=float)
+        flag = data.df["interpolated_temperature"].reindex(sup.index).to_numpy()
+        moved = [str(t) for t, a, b, f in zip(sup.index, sup.to_numpy(dtype=float), got_t, flag) if np.isfinite(a) and (a != b or bool(f))]
+        if moved:
+            pr.append(f"{len(moved)} hours do not carry the temperature supplied for them (e.g. {moved[:2]})")
     nf = int((~np.isfinite(out["predicted"].to_numpy(dtype=float))).sum())
     if nf:
         pr.append(f"{nf} of {len(out)} hourly predictions are not finite")
@@ -411,7 +424,7 @@ def hourly_predict_scenario(zone, date, before, usage):
 
 
 def replay_hourly_predict(inp):
-    pr = hourly_predict_scenario(inp["zone"], inp["date"], inp["before"], inp["usage"])
+    pr = hourly_predict_scenario(inp["zone"], inp["date"], inp["before"], inp["usage"], inp.get("form", "plain"))
     return bool(pr), "; ".join(pr)
 
 
@@ -432,7 +445,8 @@ def run_c(case: Case, zone, tier):
             continue
 
         def run():
-            cfg = dict(zone=zone, date=date, before=F.choose("before", [1, 0, 2]), usage=F.choose("usage", ["present", "absent", "missing on the transition day"]))
+            cfg = dict(zone=zone, date=date, before=F.choose("before", [1, 0, 2]), usage=F.choose("usage", ["present", "absent", "missing on the transition day"]),
+                       form=F.choose("form", ["plain", "microseconds", "late rows"]))
             return cfg, hourly_predict_scenario(**cfg)
 
         paths = case.explore(run)
